@@ -489,7 +489,9 @@ impl GlobalState {
                     };
                     if let Some(log) = &self.access_log {
                         for props in list.iter().cloned() {
-                            log.write(props).await.unwrap();
+                            if let Err(e) = log.write(props).await {
+                                tracing::error!("access log: {} cause: {:?}", e, e.cause);
+                            }
                         }
                     }
                     let mut terminated = self.terminated.lock().await;
